@@ -498,6 +498,167 @@ impl Input for SimSlice {
 
 // ---------------------------------------------------------------------------------------------
 
+/// S1, run-length form: a stream described as (character, count) segments, so that it can be
+/// billions of characters long. The bulk operations of the `Input` trait (`skip_while_non_breakz`,
+/// `skip_while_blank`, `skip_n`) jump over a segment in one step, as the string input jumps over
+/// a comment with a slice operation: the simulator's "jump the clock to the next event".
+pub struct SimRle {
+    segs: Vec<(char, u64)>,
+    si: usize,
+    so: u64,
+    look: usize,
+}
+
+pub const RLE_MAGIC: &str = "\u{1}RLE\u{1}";
+
+impl SimRle {
+    /// `\u{1}RLE\u{1}` then `c*count` items separated by `\u{1}`.
+    pub fn from_notation(text: &str) -> Self {
+        let mut segs = Vec::new();
+        for item in text.strip_prefix(RLE_MAGIC).unwrap_or("").split('\u{1}') {
+            let mut cs = item.chars();
+            if let (Some(c), Some('*')) = (cs.next(), cs.next()) {
+                let n: u64 = cs.as_str().parse().unwrap_or(1);
+                if n > 0 {
+                    segs.push((c, n));
+                }
+            }
+        }
+        SimRle { segs, si: 0, so: 0, look: 0 }
+    }
+    pub fn notation(segs: &[(char, u64)]) -> String {
+        let mut s = String::from(RLE_MAGIC);
+        for (k, (c, n)) in segs.iter().enumerate() {
+            if k > 0 {
+                s.push('\u{1}');
+            }
+            s.push_str(&format!("{c}*{n}"));
+        }
+        s
+    }
+    /// Logical length of a notation.
+    pub fn logical_len(text: &str) -> u64 {
+        Self::from_notation(text).segs.iter().map(|s| s.1).sum()
+    }
+    fn at(&self, mut k: u64) -> char {
+        let (mut si, mut so) = (self.si, self.so);
+        while si < self.segs.len() {
+            let left = self.segs[si].1 - so;
+            if k < left {
+                return self.segs[si].0;
+            }
+            k -= left;
+            si += 1;
+            so = 0;
+        }
+        '\0'
+    }
+    fn advance(&mut self, mut n: u64) {
+        while n > 0 && self.si < self.segs.len() {
+            let left = self.segs[self.si].1 - self.so;
+            if n < left {
+                self.so += n;
+                return;
+            }
+            n -= left;
+            self.si += 1;
+            self.so = 0;
+        }
+    }
+    fn skip_run(&mut self, pred: fn(char) -> bool) -> usize {
+        let mut total = 0u64;
+        while self.si < self.segs.len() && pred(self.segs[self.si].0) {
+            total += self.segs[self.si].1 - self.so;
+            self.si += 1;
+            self.so = 0;
+        }
+        total as usize
+    }
+}
+
+impl Input for SimRle {
+    fn lookahead(&mut self, count: usize) {
+        tick_op(1, count as u64);
+        self.look = self.look.max(count);
+    }
+    fn buflen(&self) -> usize {
+        tick_op(2, 0);
+        self.look
+    }
+    fn bufmaxlen(&self) -> usize {
+        128
+    }
+    fn raw_read_ch(&mut self) -> char {
+        tick_op(4, 0);
+        let c = self.at(0);
+        self.advance(1);
+        c
+    }
+    fn raw_read_non_breakz_ch(&mut self) -> Option<char> {
+        tick_op(5, 0);
+        let c = self.at(0);
+        if self.si >= self.segs.len() || is_breakz(c) {
+            None
+        } else {
+            self.advance(1);
+            Some(c)
+        }
+    }
+    fn skip(&mut self) {
+        tick_op(6, 0);
+        self.advance(1);
+    }
+    fn skip_n(&mut self, count: usize) {
+        tick_op(7, count as u64);
+        self.advance(count as u64);
+    }
+    fn peek(&self) -> char {
+        tick_op(8, 0);
+        self.at(0)
+    }
+    fn peek_nth(&self, n: usize) -> char {
+        tick_op(9, n as u64);
+        self.at(n as u64)
+    }
+    fn skip_while_non_breakz(&mut self) -> usize {
+        tick_op(10, 0);
+        self.skip_run(|c| !is_breakz(c))
+    }
+    fn skip_while_blank(&mut self) -> usize {
+        tick_op(11, 0);
+        self.skip_run(|c| c == ' ' || c == '\t')
+    }
+    /// The trait's default, run by run instead of character by character (same result).
+    fn skip_ws_to_eol(&mut self, skip_tabs: saphyr_parser::input::SkipTabs) -> (usize, Result<saphyr_parser::input::SkipTabs, &'static str>) {
+        use saphyr_parser::input::SkipTabs;
+        tick_op(12, 0);
+        let (mut encountered_tab, mut has_yaml_ws, mut consumed) = (false, false, 0usize);
+        loop {
+            match self.at(0) {
+                ' ' if self.si < self.segs.len() => {
+                    has_yaml_ws = true;
+                    consumed += self.skip_run(|c| c == ' ');
+                }
+                '\t' if skip_tabs != SkipTabs::No => {
+                    encountered_tab = true;
+                    consumed += self.skip_run(|c| c == '\t');
+                }
+                '#' if !encountered_tab && !has_yaml_ws => {
+                    return (consumed, Err("comments must be separated from other tokens by whitespace"));
+                }
+                '#' => {
+                    self.advance(1);
+                    consumed += 1 + self.skip_run(|c| !is_breakz(c));
+                }
+                _ => break,
+            }
+        }
+        (consumed, Ok(SkipTabs::Result(encountered_tab, has_yaml_ws)))
+    }
+}
+
+// ---------------------------------------------------------------------------------------------
+
 /// Which input the simulated environment puts under the parser.
 #[derive(Clone, Copy, Debug, PartialEq, Eq)]
 pub enum InputKind {
@@ -509,13 +670,15 @@ pub enum InputKind {
     BufferedBare,
     Ring(usize, Policy),
     Slice(usize),
+    /// `SimRle`: the case text is a run-length notation of the stream.
+    Rle,
 }
 
 impl InputKind {
     /// What the input reports as `bufmaxlen()` (the scanner sizes its scalar buffers by it).
     pub fn capacity(&self) -> usize {
         match self {
-            InputKind::Str => 128,
+            InputKind::Str | InputKind::Rle => 128,
             InputKind::Buffered | InputKind::BufferedBare => 16,
             InputKind::Ring(c, _) | InputKind::Slice(c) => *c,
         }
@@ -527,6 +690,7 @@ impl InputKind {
             InputKind::BufferedBare => "buffered-bare".into(),
             InputKind::Ring(c, p) => format!("ring:{c}:{}", p.name()),
             InputKind::Slice(c) => format!("slice:{c}"),
+            InputKind::Rle => "rle".into(),
         }
     }
     pub fn parse(s: &str) -> Option<InputKind> {
@@ -540,12 +704,13 @@ impl InputKind {
                 Policy::from_name(parts.get(2).copied().unwrap_or("pushback")),
             )),
             "slice" => Some(InputKind::Slice(parts.get(1)?.parse().ok()?)),
+            "rle" => Some(InputKind::Rle),
             _ => None,
         }
     }
     pub fn cap(&self) -> usize {
         match self {
-            InputKind::Str => 128,
+            InputKind::Str | InputKind::Rle => 128,
             InputKind::Buffered | InputKind::BufferedBare => 16,
             InputKind::Ring(c, _) | InputKind::Slice(c) => *c,
         }
